@@ -28,12 +28,13 @@ def main():
         print(pid, v, "confirmed" if rc == 0 else "NOT CONFIRMED", {k: x for k, x in res.items() if x is False})
     elif a[0] == "cold":
         pid, v = a[2], a[3]
+        only = os.environ.get("ROUND_ONLY") or None
         ids = a[4:] or [pid]
         d = os.path.join(wt, pid, "out", v)
         t0 = time.time()
-        r = seedtest.run(os.path.join(d, "patch.diff"), ids)
+        r = seedtest.run(os.path.join(d, "patch.diff"), ids, only)
         head = seedtest.sh("git -C %s rev-parse --short HEAD" % ROOT)[1].strip()
-        json.dump(dict(results=r, wall_s=round(time.time() - t0, 1), harness=head), open(os.path.join(wt, "results", "cold_%s_%s.json" % (pid, v)), "w"), indent=1)
+        json.dump(dict(results=r, wall_s=round(time.time() - t0, 1), harness=head, only=only), open(os.path.join(wt, "results", "cold_%s_%s.json" % (pid, v)), "w"), indent=1)
     elif a[0] == "store":
         suffix = a[2]
         origin = a[3] if len(a) > 3 else "independent sub-agent given only the property text and a scratch worktree of /repo"
